@@ -87,8 +87,21 @@ def register(reg):
     # args[0], args[1] are (n0, n1) for Forward and (n1, n0) for Reverse: the property
     # contracts pin that down, __len__/__contains__ are then proved against them.
     reg.add_class(ClassSpec("ActionArgs", "schedule", fields=[("args", ("tuple", ["int", "int"]))]))
+    ARGS = {"Forward": ["int", "int", "bool", "bool", "storage"], "Reverse": ["int", "int", "bool"],
+            "Copy": ["int", "storage", "storage"], "Move": ["int", "storage", "storage"]}
+    # the remaining accessors: each returns its own component of args (C18: value objects)
+    for cls, comps in (("Forward", (("write_ics", 2, "bool"), ("write_adj_deps", 3, "bool"), ("storage", 4, "storage"))),
+                       ("Reverse", (("clear_adj_deps", 2, "bool"),)),
+                       ("Copy", (("n", 0, "int"), ("from_storage", 1, "storage"), ("to_storage", 2, "storage"))),
+                       ("Move", (("n", 0, "int"), ("from_storage", 1, "storage"), ("to_storage", 2, "storage")))):
+        reg.classes[cls] = ClassSpec(cls, "schedule", fields=[("args", ("tuple", ARGS[cls]))])
+        for name, k, ty in comps:
+            reg.add(Contract("schedule.%s.%s" % (cls, name), self_class=cls, params=[("self", "obj")],
+                             is_property=True, pure=True, returns=ty,
+                             ensures=[("%s_is_arg" % name, "result == self.args[%d]" % k)], frame=[],
+                             props=("C18",)))
     for cls, i0, i1 in (("Forward", 0, 1), ("Reverse", 1, 0)):
-        reg.classes[cls] = ClassSpec(cls, "schedule", fields=[("args", ("tuple", ["int", "int"]))])
+        reg.classes[cls] = ClassSpec(cls, "schedule", fields=[("args", ("tuple", ARGS[cls]))])
         reg.add(Contract("schedule.%s.n0" % cls, self_class=cls, params=[("self", "obj")],
                          is_property=True, pure=True, returns="int",
                          ensures=[("n0_is_arg", "result == self.args[%d]" % i0)], frame=[], props=("C18",)))
